@@ -6,7 +6,7 @@ VERUS_TECH = 'contract-based deductive verification (Verus/Z3) of functions extr
 
 PROPERTIES = {
     'C01': dict(
-        level='proof', verus=['rlabels', 'rbranch', 'rscan', 'rpool', 'rdecode', 'rframes', 'rattrs', 'rtables', 'raccept', 'rtree', 'rarms', 'rtypes', 'rpoolres', 'rannot', 'abuild'], kani=['flags'], enum=['cls'],
+        level='proof', verus=['rlabels', 'rbranch', 'rscan', 'rpool', 'rdecode', 'rframes', 'rattrs', 'rtables', 'raccept', 'rtree', 'rarms', 'rtypes', 'rpoolres', 'rannot', 'abuild'], kani=['flags'], enum=['cls', 'indy'],
         technique=VERUS_TECH,
         claim='Unbounded proof, for the functions under contract only: the reader offset->Label table (bounds checks, exact lookup, frame, injectivity invariant), '
               'branch-target arithmetic and switch padding, the primitive big-endian readers, the header check (magic, every major version up to 67 whatever the minor), the constant-pool layout (JVMS 4.4, two slots for long/double), '
@@ -19,7 +19,7 @@ PROPERTIES = {
         out=['duke/src/class_reader.rs read_annotations_attribute / read_element_value* / read_type_annotations_* / read_module / read_record_component content', 'duke/src/class_reader/pool.rs get_loadable recursion through bootstrap methods',
              'duke/src/visitor/implementations/tree.rs (tree-building visitor)']),
     'C02': dict(
-        level='proof', verus=['cwrite', 'wjump', 'wpool', 'wencode', 'wattrs', 'wtypes', 'wannot', 'wput', 'wfrom', 'warms'], kani=['flags'], enum=['cls'],
+        level='proof', verus=['cwrite', 'wjump', 'wpool', 'wencode', 'wattrs', 'wtypes', 'wannot', 'wput', 'wfrom', 'warms'], kani=['flags'], enum=['cls', 'indy'],
         technique=VERUS_TECH,
         claim='Unbounded proof, for the functions under contract only: every jump emitted by if_helper/goto_helper/switch_helper has exactly the narrow / wide / inverted-if+goto_w byte shape with the offset that lands on the label, '
               'the narrow form is chosen iff the offset fits i16, unresolved jumps reserve a slot whose recorded patch position and base are exact, put_i16_at/put_i32_at patch big-endian and touch nothing else, '
@@ -55,14 +55,17 @@ PROPERTIES = {
         note='Trusted: Verus+Z3; extraction rewrites (serde/default attributes stripped from the enum). The argument order at the call site is not checked.',
         out=['maven_dependency_resolver/src/maven_pom_done.rs', 'clean_up_dependencies / Forest::breadth_first_retain', 'coord.rs printing/parsing', 'call site of the_scope_table in get_dependencies_tree (async)']),
     'C20': dict(
-        level='proof', verus=['c20len', 'c20ser', 'c20rd'], kani=[],
+        level='proof', verus=['c20len', 'c20ser', 'c20rd'], kani=[], enum=['rawcls'],
         technique=VERUS_TECH + ' (on the rustc macro expansion of raw_class_file)',
+        explanation='Bounded part (never counted as proved): ClassFile::read / write / to_bytes / length on 436 000 generated class files and raw values (pools with and without Long / Double, every attribute kind the crate models, '
+                    'stack map frames, annotations, modules and records, counts at their bounds, raw values that are no well-formed files, the 4 class files of the repository), each compared byte for byte and value for value with an independent '
+                    'builder written from the JVMS (kx/enum/rawcls_group.py lists the universes).',
         claim='Unbounded proof, per flat attribute variant of the macro-generated AttributeInfo::_write (ConstantValue, Exceptions, EnclosingMethod, Synthetic, Signature, SourceFile, SourceDebugExtension, Deprecated, '
               'ModulePackages, ModuleMainClass, NestHost, NestMembers, PermittedSubclasses, Other): the bytes appended are a well-formed attribute_info whose attribute_length equals the number of bytes that follow, '
               'whose total size is the one JVMS 4.7.x prescribes, and which starts with the name index; everything written before is untouched. '
               'Partial: recursive variants (Code, annotations, Record, Module, StackMapTable, MethodParameters ...), _len/_read and the read side are not under contract.',
         note='Trusted: Verus+Z3; rustc -Zunpretty=expanded as the source of the verified text; arm lifting; sink model vw_write (Vec<u8> write_all appends big-endian bytes, never fails); vectors fit their count field.',
-        out=['recursive attribute variants using this._len()', 'AttributeInfo::_read / _len, ClassFile::read (pool with long/double)', 'CpInfo, FieldInfo, MethodInfo writers']),
+        out=['recursive attribute variants using this._len() -- bounded only', 'ClassFile::read / write as a whole, CpInfo, FieldInfo, MethodInfo writers -- bounded only', 'pools with Long / Double entries: known finding (two-slot rule ignored)']),
     'C07': dict(
         level='proof', verus=['remap', 'remapapi'], kani=[], enum=['remapjar'],
         technique=VERUS_TECH,
